@@ -424,3 +424,118 @@ func TestVFC09ResetVsFlush(t *testing.T) {
 		}
 	})
 }
+
+// TestVFC09ResetAcrossHourStep: the flush worker has read the hour and is about
+// to take its locks when the hour ends and the statistics are reset; queries
+// counted after the reset must be there whatever the worker does next.  The
+// harness holds the worker inside the clock function the module is configured
+// with, so the schedule is fixed, not timed.
+func TestVFC09ResetAcrossHourStep(t *testing.T) {
+	vfkit.Begin(t)
+	rapid.Check(t, func(t *rapid.T) {
+		start := uint32(480_000 + rapid.IntRange(0, 47).Draw(t, "start_hour_offset"))
+		before := rapid.IntRange(1, 40).Draw(t, "updates_before")
+		during := rapid.IntRange(0, 6).Draw(t, "updates_between_reset_and_worker")
+		after := rapid.IntRange(0, 20).Draw(t, "updates_after")
+		hourEnds := rapid.IntRange(0, 3).Draw(t, "hour_ends_before_reset") > 0
+		laterPolls := rapid.IntRange(0, 3).Draw(t, "later_polls")
+		nextHour := rapid.Bool().Draw(t, "one_more_hour")
+		restart := rapid.Bool().Draw(t, "restart_at_end")
+
+		hst := vfC09NewHist(t, start, 24, true)
+		defer hst.x.destroy()
+		s := hst.x.s
+		upd := func(n int, dom string) {
+			for i := 0; i < n; i++ {
+				s.Update(&Entry{Result: RNotFiltered, Client: vfC09Clients[i%len(vfC09Clients)], Domain: dom, ProcessingTime: time.Millisecond})
+			}
+		}
+		upd(before, "before.reset.test")
+
+		held, release, workerDone := make(chan struct{}), make(chan struct{}), make(chan struct{})
+		hold := func() { close(held); <-release }
+		hst.x.afterClockRead.Store(&hold)
+		go func() {
+			defer close(workerDone)
+			s.flush()
+		}()
+		select {
+		case <-held:
+		case <-time.After(30 * time.Second):
+			t.Fatalf("VERIF-INCONCLUSIVE the flush worker did not read the clock")
+		}
+		if hourEnds {
+			hst.x.clock.Add(1)
+		}
+		// the reset and the queries after it are other goroutines' business:
+		// the worker goes on when they are through or have visibly come to
+		// wait (for the worker, which is a legitimate way to order them)
+		var resetCode atomic.Int64
+		othersDone := make(chan struct{})
+		go func() {
+			defer close(othersDone)
+			code, _, _ := hst.x.do(http.MethodPost, "/control/stats_reset", "")
+			resetCode.Store(int64(code))
+			upd(during, "between.test")
+		}()
+		select {
+		case <-othersDone:
+			vfC09.Class("conc:reset_ran_while_worker_was_held")
+		case <-time.After(300 * time.Millisecond):
+			vfC09.Class("conc:reset_waited_for_worker")
+		}
+		close(release)
+		for _, ch := range []chan struct{}{workerDone, othersDone} {
+			select {
+			case <-ch:
+			case <-time.After(60 * time.Second):
+				hst.x.s = nil
+				t.Fatalf("stall: the flush poll, the reset and %d queries have not all finished 60 s after the worker was let go", during)
+			}
+		}
+		if resetCode.Load() != http.StatusOK {
+			t.Fatalf("POST /control/stats_reset: status %d", resetCode.Load())
+		}
+		for i := 0; i < laterPolls; i++ {
+			s.flush()
+		}
+		upd(after, "after.reset.test")
+		if nextHour {
+			hst.x.clock.Add(1)
+			s.flush()
+			s.flush()
+		}
+
+		want := uint64(during + after)
+		check := func(when string) {
+			code, out, err := hst.x.do(http.MethodGet, "/control/stats", "")
+			if err != nil || code != http.StatusOK {
+				t.Fatalf("GET /control/stats %s: %d %s %v", when, code, out, err)
+			}
+			o, perr := vfC09ParseConc(out)
+			if perr != nil {
+				t.Fatalf("%s: %v", when, perr)
+			}
+			if o.tot[vfC09Tot] != want {
+				t.Fatalf("%s: num_dns_queries = %d; %d queries were counted before POST /control/stats_reset, %d between its return and the "+
+					"end of the flush poll that had read the hour before it (hour ended meanwhile: %t), %d afterwards: want %d",
+					when, o.tot[vfC09Tot], before, during, hourEnds, after, want)
+			}
+		}
+		check("after the reset")
+		if restart {
+			if err := s.Close(); err != nil {
+				t.Fatalf("clean shutdown failed: %v", err)
+			}
+			hst.x.s = nil
+			if err := hst.x.open(hst.m.limit, true); err != nil {
+				t.Fatalf("restart failed: %v", err)
+			}
+			check("after the reset and a restart")
+		}
+
+		vfC09.Eval()
+		vfC09.Class(fmt.Sprintf("conc:reset_after_worker_read_the_hour:hour_ended=%t", hourEnds))
+		vfC09.Nontrivial(fmt.Sprintf("reset_across_hour|%d|%d|%d|%t|%d|%t", before, during, after, hourEnds, laterPolls, nextHour))
+	})
+}
